@@ -187,6 +187,17 @@ func CanonPayload(m proto.Message) string {
 	case *aftpb.Afts_NextHopGroupKey:
 		l := e.GetNextHopGroup().GetNextHop()
 		sort.SliceStable(l, func(i, j int) bool { return l[i].GetIndex() < l[j].GetIndex() })
+		// a member listed twice with identical content is one member of the (keyed) list
+		if g := e.GetNextHopGroup(); g != nil {
+			var d []*aftpb.Afts_NextHopGroup_NextHopKey
+			for i, x := range l {
+				if i > 0 && proto.Equal(x, l[i-1]) {
+					continue
+				}
+				d = append(d, x)
+			}
+			g.NextHop = d
+		}
 	case *aftpb.Afts_NextHopKey:
 		l := e.GetNextHop().GetEncapHeader()
 		sort.SliceStable(l, func(i, j int) bool { return l[i].GetIndex() < l[j].GetIndex() })
